@@ -298,13 +298,14 @@ def rescaling_sampling(tier, rng, rep):
                     v = rng.integers(-3, 4, size=shape + (n,)) / 4.0
                     if np.all(np.sum(v * v, axis=-1) < 0.95):
                         return v
-            k, l = lat(), lat()
-            l = np.where(np.all(k == l, axis=-1, keepdims=True), -l + (np.arange(n) == 0) * 0.25, l)
-            if t % 4 == 0:
-                l = l * (rng.random(size=shape + (1,)) < 0.5)        # second endpoint at the origin for about half of the units
+            while True:
+                k, l = lat(), lat()
+                if t % 4 == 0:
+                    l = l * (rng.random(size=shape + (1,)) < 0.5)        # second endpoint at the origin for about half of the units
+                if not np.any(np.all(k == l, axis=-1)):                  # distinct interior lattice points, unit by unit
+                    break
             fa = rng.choice([-1, 1], size=shape + (1,)) * 2.0 ** rng.integers(-2, 3, size=shape + (1,))
             fb = rng.choice([-1, 1], size=shape + (1,)) * 2.0 ** rng.integers(-2, 3, size=shape + (1,))
-            l = np.where(np.all(k == l, axis=-1, keepdims=True), l + (np.arange(n) == 0) * 0.25, l)
         x, y = spec.k2proj(k), spec.k2proj(l)
         inp = {"n": n, "shape": list(shape), "k": k.tolist(), "l": l.tolist(), "fa": fa.tolist(), "fb": fb.tolist()}
 
